@@ -35,6 +35,10 @@ def to_h5_value(v):
     if isinstance(v, dict) and "__bytes__" in v:
         bs = bytes.fromhex(v["__bytes__"])
         return np.void(bs) if len(bs) else h5py.Empty("S1")
+    if isinstance(v, dict) and "__unstorable__" in v:
+        return np.array([{}], dtype=object)  # a value HDF5 has no type for: the write fails on every driver
+    if isinstance(v, dict) and "__np__" in v:
+        return np.dtype(v["__np__"]).type(v["value"])  # typed numpy scalar, e.g. {"__np__": "uint8", "value": 127}
     return v
 
 
